@@ -75,14 +75,25 @@ fn script(dir: &str, names: &[&str; 2], notes: &[Note]) -> (Vec<Value>, Vec<(Str
     let mut msgs = vec![lsp_initialize(0), lsp_initialized()];
     let mut version = [0i64; 2];
     let mut expect = vec![];
+    // version numbers are the client's: consecutive from 1 mostly, but also with a stride, from 0,
+    // or far up in the 32-bit range (derived from the history, so a replay sends the same ones)
+    let h = crate::tape::fnv(notes.iter().map(|n| n.text.len() as u8).collect::<Vec<u8>>().as_slice()) ^ notes.len() as u64;
+    let (base, stride): (i64, i64) = match h % 8 {
+        0 => (-1, 1),
+        1 => (0, 2),
+        2 => (40, 1000),
+        3 => (2_000_000_000, 70_000),
+        _ => (0, 1),
+    };
     for n in notes {
         if n.reopen && version[n.uri_idx] >= 1 {
             msgs.push(lsp_did_close(&u[n.uri_idx]));
             version[n.uri_idx] = 0;
         }
         version[n.uri_idx] += 1;
-        let v = version[n.uri_idx];
-        if v == 1 {
+        let k = version[n.uri_idx];
+        let v = base + 1 + (k - 1) * stride;
+        if k == 1 {
             msgs.push(lsp_did_open(&u[n.uri_idx], v, &n.text));
         } else {
             match &n.stale {
